@@ -76,6 +76,7 @@ package cache
 //@   ensures {C01} post.ok: res1 == live(o, now)
 //@   ensures {C01,C09} post.value: res0 == ite(live(o, now), val(o), nil)
 //@   ensures {C01} post.state: view(c.items) == ite(present(o) && !live(o, now), remove(P, k), P)
+//@   ensures {C16,seq} nonblocking: live(o, now) || !present(o) ==> ncall("Compute") == 0
 //@   ensures cacheInv(c)
 
 //@ func (*xsyncMap).Get
@@ -255,11 +256,9 @@ package cache
 //@   loop rangeindex.loop: invariant {C06,seq} queued.distinct: forall i: int, j: int :: 0 <= i && i < j && j < len(evictedItems) ==> evictedItems[i].k != evictedItems[j].k
 //@   loop rangeindex.loop: invariant {C06} fired.count: cbpure ==> cbn(ec0) == n0 + rangeindex + 1
 //@   loop rangeindex.loop: invariant {C06} fired.entries: cbpure ==> (forall j: int :: n0 <= j && j < cbn(ec0) ==> cbf(ec0, j) == ec0 && cba(ec0, j, 0) == evictedItems[j - n0].k && cba(ec0, j, 1) == evictedItems[j - n0].v)
-//@   loop rangeindex.loop: invariant {C06,seq} fired.once: cbpure ==> (forall i: int, j: int :: n0 <= i && i < j && j < cbn(ec0) ==> cba(ec0, i, 0) != cba(ec0, j, 0))
 //@   ensures {C01,seq} post.state: cbpure ==> (forall q: string :: view(c.items)[q] == ite(present(P[q]) && isExpired(IE(val(P[q])), t0), none, P[q]))
 //@   ensures {C06,seq} post.fired.count: cbpure ==> cbn(ec0) - n0 == ite(ec0 != nil, card(P) - card(view(c.items)), 0)
 //@   ensures {C06,seq} post.fired.entries: cbpure ==> (forall j: int :: n0 <= j && j < cbn(ec0) ==> cbf(ec0, j) == ec0 && removedEntry(P, t0, cba(ec0, j, 0), cba(ec0, j, 1)))
-//@   ensures {C06,seq} post.fired.once: cbpure ==> (forall i: int, j: int :: n0 <= i && i < j && j < cbn(ec0) ==> cba(ec0, i, 0) != cba(ec0, j, 0))
 //@   ensures cacheInv(c)
 //@ define liveMap(P, t) = lambda q: string :: ite(live(P[q], t), some(IV(val(P[q]))), none)
 
@@ -436,6 +435,7 @@ package cache
 //@   ensures {C01} post.ok: res1 == liveOf(o, now)
 //@   ensures {C01,C09} post.value: res0 == ite(liveOf(o, now), val(o), nil)
 //@   ensures {C01} post.state: view(c.items) == ite(present(o) && !liveOf(o, now), remove(P, k), P)
+//@   ensures {C16,seq} nonblocking: liveOf(o, now) || !present(o) ==> ncall("Compute") == 0
 //@   ensures cacheInvOf(c)
 
 //@ func (*xsyncMapOf[K, V]).Get
@@ -615,11 +615,9 @@ package cache
 //@   loop rangeindex.loop: invariant {C06,seq} queued.distinct: forall i: int, j: int :: 0 <= i && i < j && j < len(evictedItems) ==> evictedItems[i].k != evictedItems[j].k
 //@   loop rangeindex.loop: invariant {C06} fired.count: cbpure ==> cbn(ec0) == n0 + rangeindex + 1
 //@   loop rangeindex.loop: invariant {C06} fired.entries: cbpure ==> (forall j: int :: n0 <= j && j < cbn(ec0) ==> cbf(ec0, j) == ec0 && cba(ec0, j, 0) == evictedItems[j - n0].k && cba(ec0, j, 1) == evictedItems[j - n0].v)
-//@   loop rangeindex.loop: invariant {C06,seq} fired.once: cbpure ==> (forall i: int, j: int :: n0 <= i && i < j && j < cbn(ec0) ==> cba(ec0, i, 0) != cba(ec0, j, 0))
 //@   ensures {C01,seq} post.state: cbpure ==> (forall q: K :: view(c.items)[q] == ite(present(P[q]) && isExpired(IEOf(val(P[q])), t0), none, P[q]))
 //@   ensures {C06,seq} post.fired.count: cbpure ==> cbn(ec0) - n0 == ite(ec0 != nil, card(P) - card(view(c.items)), 0)
 //@   ensures {C06,seq} post.fired.entries: cbpure ==> (forall j: int :: n0 <= j && j < cbn(ec0) ==> cbf(ec0, j) == ec0 && removedEntryOf(P, t0, cba(ec0, j, 0), cba(ec0, j, 1)))
-//@   ensures {C06,seq} post.fired.once: cbpure ==> (forall i: int, j: int :: n0 <= i && i < j && j < cbn(ec0) ==> cba(ec0, i, 0) != cba(ec0, j, 0))
 //@   ensures cacheInvOf(c)
 //@ define liveMapOf(P, t) = lambda q: K :: ite(liveOf(P[q], t), some(IVOf(val(P[q]))), none)
 
